@@ -390,4 +390,109 @@ MayOverflow(x, d) ==
   ELSE Abs(x.fx) > 0
 KB_CompressFloat(A, hasFP, d) ==
   A.t \in FloatTypes /\ hasFP /\ \E i \in DOMAIN A.v : ~IsFinite(A.v[i]) \/ MayOverflow(A.v[i], d)
+
+(* ================================================================== compress(): floats of any magnitude *)
+(* The fixed-point universe above (20 fractional bits, |x| < 2^31) cannot express what the float
+   branch of compress() is about: the NUMBER OF DECIMALS it chooses from the data (any sign, up to
+   MaxDec), the range check of the scaled values against int32 and the fall-back to lossless bytes.
+   Decimal floats:   Num(m, p) = m * 10^p, the nearest float of the array's type, with a NORMALISED
+   nine-digit mantissa (10^8 <= |m| < 10^9) or m = p = 0; plus nan / pinf / ninf.  An observed
+   element is projected with the unit 10^p of the input element it belongs to:
+   [k |-> "num", fx |-> round(y / 10^p), ex |-> (y / 10^p is that integer)] (k = "junk" beyond 32 bits).
+
+   Code shape (compress.py):
+     _get_decimal_places: d runs upwards from -(order of magnitude of the largest element) and stops
+        at the first d with  |round(x, d) - x| < |x| / T  for every finite non-zero element.
+        RoundErr(m, k) is that error (in units 10^p) when the last k digits of m are rounded away.
+        Float arithmetic decides the comparison only up to rounding noise, so the model keeps two
+        thresholds per element: PassK (surely passes) and MayK (does not surely fail).
+     np.round multiplies by 10.0^d in the float type of the array: for d > MaxDec(t), or when an element
+        times 10^d leaves the float range, the error is inf / NaN and the test fails for this and every
+        later d: the search never ends (SciHang; recorded defect CompressDecimalsUnbounded).
+     _compress_data: non-finite or |round(x * 10^d)| > int32 max -> lossless ByteArray; otherwise
+        FixedPoint(10^d) + best integer chain, or ByteArray when that is not smaller. *)
+Num(m, p) == [k |-> "num", m |-> m, p |-> p]
+SciNaN  == [k |-> "nan",  m |-> 0, p |-> 0]
+SciPInf == [k |-> "pinf", m |-> 0, p |-> 0]
+SciNInf == [k |-> "ninf", m |-> 0, p |-> 0]
+MantLo == 100000000
+MantHi == 999999999
+IsNZ(x) == x.k = "num" /\ x.m # 0
+\* largest power of ten (and largest exponent of a finite value, conservatively) of the float types
+MaxDec(t) == IF t = 32 THEN 38 ELSE 308
+\* number of decimal digits of n >= 1 (n < 2^31)
+Digits(n) == CHOOSE k \in 1..10 : (k = 1 \/ n >= Pow10(k - 1)) /\ (k = 10 \/ n < Pow10(k))
+\* m * 10^p with any mantissa 1 <= |m| < 10^9, normalised
+Sci(m, p) == LET s == 9 - Digits(Abs(m)) IN Num(m * Pow10(s), p - s)
+\* error (units 10^p) of rounding away the last k digits of m
+RoundErr(m, k) == IF k <= 0 THEN 0 ELSE IF k >= 10 THEN Abs(m)
+                  ELSE Abs(RoundHalfEven(m, Pow10(k)) * Pow10(k) - m)
+\* float noise in  error < |x| / T :  relative 2^-21 (float32), below one unit (float64)
+SciSlack(t, m, T) == IF t = 32 THEN Abs(m) \div (2097152 \div T) + 1 ELSE 1
+PassK(t, m, T) == Max({k \in 0..9 : RoundErr(m, k) <= (Abs(m) - 1 - SciSlack(t, m, T)) \div T})
+MayK(t, m, T)  == Max({k \in 0..9 : RoundErr(m, k) < (Abs(m) + SciSlack(t, m, T) + T - 1) \div T})
+\* the distinct finite non-zero elements
+SciNZ(A) == {x \in {A.v[i] : i \in DOMAIN A.v} : IsNZ(x)}
+\* first d tried: -(order of magnitude) of the largest element
+SciLo(A) == IF SciNZ(A) = {} THEN 0 ELSE -(8 + Max({x.p : x \in SciNZ(A)}))
+\* smallest d at which every element surely passes / no element surely fails
+SciNeed(A, T) == Max({SciLo(A)} \cup {-x.p - PassK(A.t, x.m, T) : x \in SciNZ(A)})
+SciMay(A, T)  == Max({SciLo(A)} \cup {-x.p - MayK(A.t, x.m, T) : x \in SciNZ(A)})
+\* largest d at which 10^d and every x * 10^d are surely finite ( < 10^MaxDec ) / not surely infinite ( < 10^(MaxDec+1) )
+SciCapSure(A) == Min({MaxDec(A.t)} \cup {MaxDec(A.t) - 9 - x.p : x \in SciNZ(A)})
+SciCapMay(A)  == Min({MaxDec(A.t)} \cup {MaxDec(A.t) - 8 - x.p : x \in SciNZ(A)})
+\* an array of one element is returned as it is (no search, no fixed point)
+SciTrivial(A) == Len(A.v) = 1
+SciHang(A, T) == ~SciTrivial(A) /\ SciMay(A, T) > SciCapMay(A)       \* the search surely never ends
+SciTerm(A, T) == SciTrivial(A) \/ SciNeed(A, T) <= SciCapSure(A)     \* the search surely ends, at the latest at SciNeed
+SciDecimals(A, T) == SciNeed(A, T)                      \* = the d the code returns (inside Dom_SciDecisive)
+\* round(x * 10^d) does not fit into int32 (nine-digit mantissa: e = 0 always fits, e >= 2 never)
+SciOverflow(x, d) == IsNZ(x) /\ LET e == x.p + d IN e >= 1 /\ (e > 9 \/ Abs(x.m) > MaxInt32 \div Pow10(e))
+\* float32 only: |x * 10^d| is so close to 2^31 that float32 arithmetic cannot tell the side
+\* (2^31 - 2000 .. 2^31 + 2500: the product carries a relative error of 2^-22, and float32 rounds
+\* everything from 2^31 - 64 to 2^31 + 128 to 2^31; recorded defect CompressFloat32RangeCheck: the range check itself is done in float32,
+\* where int32 max IS 2^31, so such a value passes and is cast to INT_MIN)
+SciZone(t, x, d) == t = 32 /\ IsNZ(x) /\ x.p + d = 1 /\ 214748200 <= Abs(x.m) /\ Abs(x.m) <= 214748450
+\* the value FixedPoint(10^d) gives back, in units 10^p
+SciFixed(x, d) ==
+  IF ~IsNZ(x) THEN 0
+  ELSE LET e == x.p + d IN
+       IF e >= 0 THEN x.m ELSE IF -e >= 10 THEN 0 ELSE RoundHalfEven(x.m, Pow10(-e)) * Pow10(-e)
+\* code-shaped result: "Diverges", or the set of arrays compress() may hand back (lossless / fixed point:
+\* the size comparison between the two is not modelled), each as a sequence of values in units 10^p
+SciImpl(A, T) ==
+  IF SciHang(A, T) THEN [oc |-> "Diverges", ys |-> {}, fits |-> FALSE]
+  ELSE LET d == SciDecimals(A, T)
+           lossless == [i \in DOMAIN A.v |-> A.v[i].m]
+           fits == ~SciTrivial(A) /\ \A i \in DOMAIN A.v : A.v[i].k = "num" /\ ~SciOverflow(A.v[i], d)
+       IN [oc |-> "ok", fits |-> fits,
+           ys |-> {lossless} \cup (IF fits THEN {[i \in DOMAIN A.v |-> SciFixed(A.v[i], d)]} ELSE {})]
+\* the property: relative tolerance 1 / T (two units of slack for the projection, float32: the
+\* representation error of x and of the decoded value)
+SciTol(t, T, m) == Abs(m) \div T + 2 + (IF t = 32 THEN Abs(m) \div 1048576 ELSE 0)
+AcceptSci(t, T, x, y) ==
+  IF x.k # "num" THEN y.k = x.k
+  ELSE IF x.m = 0 THEN y.k = "num" /\ y.fx = 0 /\ y.ex
+  ELSE y.k = "num" /\ Abs(y.fx - x.m) <= SciTol(t, T, x.m)
+(* ------------------------------------------------------------------ recorded defects *)
+KB_SciUnbounded(A, T) == SciHang(A, T)
+\* compress() builds the factor as the Python integer 10^d; msgpack has no integers >= 2^64, so the
+\* returned BinaryCIFData cannot be written when d >= 20
+KB_SciFactor(A, T) == ~SciTrivial(A) /\ ~SciHang(A, T) /\ SciDecimals(A, T) >= 20
+KB_SciFloat32Range(A, T) == ~SciTrivial(A) /\ ~SciHang(A, T) /\ \E i \in DOMAIN A.v : SciZone(A.t, A.v[i], SciDecimals(A, T))
+(* ------------------------------------------------------------------ domain *)
+Dom_SciElem(t, x) ==
+  CASE x.k = "num" -> \/ x.m = 0 /\ x.p = 0
+                      \* normalised, and not within 0.1 % of a power of ten (floor(log10 |x|) is then unambiguous)
+                      \/ /\ MantLo + 100000 <= Abs(x.m) /\ Abs(x.m) <= MantHi - 999999
+                         \* below 10^(MaxDec - 1); a normal number of the float type, and so far above
+                         \* the smallest one that |x| / T still has 21 significant bits (T <= 10^4 / 10^6)
+                         /\ 9 + x.p <= MaxDec(t) - 1 /\ 8 + x.p >= -(IF t = 32 THEN 33 ELSE 307)
+    [] OTHER -> x.k \in {"nan", "pinf", "ninf"} /\ x.m = 0 /\ x.p = 0
+Dom_SciArray(A) == A.t \in FloatTypes /\ A.v # <<>> /\ \A i \in DOMAIN A.v : Dom_SciElem(A.t, A.v[i])
+\* tolerances 1/T well above the float noise
+Dom_SciTol(t, T) == 2 <= T /\ T <= (IF t = 32 THEN 10000 ELSE 1000000)
+\* float arithmetic decides every comparison of the search the way decimal arithmetic does
+Dom_SciDecisive(A, T) == SciTrivial(A) \/ SciHang(A, T) \/ (SciTerm(A, T) /\ SciNeed(A, T) = SciMay(A, T))
+Dom_Sci(A, T) == Dom_SciArray(A) /\ Dom_SciTol(A.t, T) /\ Dom_SciDecisive(A, T)
 =============================================================================
